@@ -80,6 +80,10 @@ class MixedUnitaryChannel(raw_types.Gate):
             np.asarray([m[1] for m in self._mixture]), np.asarray([m[1] for m in other._mixture])
         )
 
+    def __hash__(self) -> int:
+        # Equality is approximate in the mixture, so only the exactly compared parts are hashed.
+        return hash((MixedUnitaryChannel, self._key, len(self._mixture), self._num_qubits))
+
     def num_qubits(self) -> int:
         return self._num_qubits
 
